@@ -19,7 +19,7 @@ warnings.simplefilter('ignore')
 from fractions import Fraction
 
 REPO = os.environ.get("CIDER_REPO", "/repo")
-OUT = os.path.join(os.path.dirname(os.path.abspath(__file__)), "..", "lean", "Cider", "Gen", "Decisions.lean")
+OUT = os.environ.get("PX_OUT") or os.path.join(os.path.dirname(os.path.abspath(__file__)), "..", "lean", "Cider", "Gen", "Decisions.lean")
 
 TARGETS = [
     # (file, class, function, lean name, theorem module that uses it)
@@ -29,6 +29,24 @@ TARGETS = [
     ("localcider/backend/sequence.py", "Sequence", "_Sequence__check_window_to_length", "checkWindow", "C13Src"),
     ("localcider/sequenceParameters.py", "SequenceParameters", "_SequenceParameters__verify_pH", "verifyPH", "C09Src"),
     ("localcider/backend/wang_landau.py", "WangLandauMachine", "indexInsideRelevantRegion", "insideRelevant", "C18Src"),
+    # the no-pH forms of the composition getters (pH specialised to None)
+    ("localcider/backend/sequence.py", "Sequence", "Fplus", "fplusSrc", "C04Src"),
+    ("localcider/backend/sequence.py", "Sequence", "Fminus", "fminusSrc", "C04Src"),
+    ("localcider/backend/sequence.py", "Sequence", "FCR", "fcrSrc", "C04Src", ("pH",)),
+    ("localcider/backend/sequence.py", "Sequence", "NCPR", "ncprSrc", "C04Src", ("pH",)),
+    ("localcider/backend/sequence.py", "Sequence", "FER", "ferSrc", "C04Src", ("pH",)),
+    ("localcider/backend/sequence.py", "Sequence", "mean_net_charge", "mncSrc", "C04Src", ("pH",)),
+    ("localcider/backend/sequence.py", "Sequence", "delta", "deltaSrc", "C02Src"),
+    # the body of deltaForm's loop over blobs: the increment of the accumulator as a function of the blob's counts
+    ("localcider/backend/sequence.py", "Sequence", "deltaForm", "deltaTermSrc", "C02Src", {"loop_body": True}),
+    # the integer bookkeeping at the head of the six sliding-window profile functions (up to their first loop)
+    ("localcider/backend/sequence.py", "Sequence", "linearDistOfNCPR", "flanksNCPR", "C10Src", {"ty": "Int", "outputs": ["flank_start", "flank_end", "nblobs"]}),
+    ("localcider/backend/sequence.py", "Sequence", "linearDistOfFCR", "flanksFCR", "C10Src", {"ty": "Int", "outputs": ["flank_start", "flank_end", "nblobs"]}),
+    ("localcider/backend/sequence.py", "Sequence", "linearDistOfSigma", "flanksSigma", "C10Src", {"ty": "Int", "outputs": ["flank_start", "flank_end", "nblobs"]}),
+    ("localcider/backend/sequence.py", "Sequence", "linearDistOfHydropathy", "flanksHydro", "C10Src", {"ty": "Int", "outputs": ["flank_start", "flank_end", "nblobs"]}),
+    ("localcider/backend/sequence.py", "Sequence", "linearDistOfHydropathy_2", "flanksHydro2", "C10Src", {"ty": "Int", "outputs": ["flank_start", "flank_end", "nblobs"]}),
+    ("localcider/backend/sequence.py", "Sequence", "linearDenistyOfAAs", "flanksDensity", "C10Src", {"ty": "Int", "outputs": ["flank_start", "flank_end", "nblobs"]}),
+
 ]
 SKIP_CALLS = {"warning_message", "status_message", "print"}
 
@@ -38,10 +56,14 @@ class Unsupported(Exception):
 
 
 class Tr:
-    def __init__(self, argnames):
+    def __init__(self, argnames, none_args=(), ty="Rat", outputs=None, opaque=False):
+        self.opaque = opaque              # loop-body mode: names defined outside / by untranslatable right-hand sides become parameters
+        self.ty = ty                      # "Rat" (decision functions) or "Int" (integer bookkeeping prefix of a longer function)
+        self.outputs = outputs            # prefix mode: the local variables handed back when the first untranslatable statement is reached
         self.params = []          # lean parameter names in order
-        self.argnames = argnames  # python positional args (besides self)
-        for a in argnames:
+        self.none_args = set(none_args)   # arguments specialised to None (the no-pH form of a getter)
+        self.argnames = [a for a in argnames if a not in self.none_args]
+        for a in self.argnames:
             self.param(a)
 
     def param(self, name):
@@ -52,9 +74,11 @@ class Tr:
 
     def num(self, v):
         if isinstance(v, bool):
-            return "(1 : Rat)" if v else "(0 : Rat)"
+            return "(1 : %s)" % self.ty if v else "(0 : %s)" % self.ty
         if isinstance(v, int):
-            return "(%d : Rat)" % v
+            return "(%d : %s)" % (v, self.ty)
+        if isinstance(v, float) and self.ty == "Int":
+            raise Unsupported("float constant in integer mode")
         if isinstance(v, float):
             f = Fraction(repr(v))
             return "((%d : Rat) / %d)" % (f.numerator, f.denominator)
@@ -68,13 +92,27 @@ class Tr:
                 return e.id
             if e.id in self.argnames:
                 return self.param(e.id)
+            if self.opaque:
+                return self.param(e.id)
             raise Unsupported("free name %s" % e.id)
         if isinstance(e, ast.Attribute) and isinstance(e.value, ast.Name) and e.value.id == "self":
             return self.param(e.attr)
         if isinstance(e, ast.Call):
             f = e.func
-            if isinstance(f, ast.Attribute) and isinstance(f.value, ast.Name) and f.value.id == "self" and not e.args and not e.keywords:
-                return self.param(f.attr)
+            if isinstance(f, ast.Attribute) and isinstance(f.value, ast.Name) and f.value.id == "self" and not e.keywords and \
+                    all(isinstance(a, ast.Name) and a.id in self.none_args for a in e.args):
+                return self.param(f.attr)           # self.f() / self.f(pH) with pH specialised to None
+            if isinstance(f, ast.Attribute) and isinstance(f.value, ast.Name) and f.value.id == "self" and not e.keywords and e.args and \
+                    all(isinstance(a, ast.Constant) and isinstance(a.value, int) and a.value >= 0 for a in e.args):
+                return self.param(f.attr + "_" + "_".join(str(a.value) for a in e.args))      # self.f(5): one parameter per constant argument list
+            if isinstance(f, ast.Attribute) and f.attr == "count" and isinstance(f.value, ast.Attribute) and isinstance(f.value.value, ast.Name) \
+                    and f.value.value.id == "self" and len(e.args) == 1 and isinstance(e.args[0], ast.Constant) and isinstance(e.args[0].value, str) \
+                    and e.args[0].value.isalnum():
+                return self.param("count_" + e.args[0].value)     # self.seq.count('P')
+            if isinstance(f, ast.Name) and f.id == "int" and len(e.args) == 1 and self.ty == "Int" and isinstance(e.args[0], ast.BinOp) \
+                    and isinstance(e.args[0].op, ast.Div):
+                # int(a / b) on integers: true division then truncation toward zero
+                return "(Int.tdiv %s %s)" % (self.expr(e.args[0].left, local), self.expr(e.args[0].right, local))
             if isinstance(f, ast.Name) and f.id == "abs" and len(e.args) == 1:
                 x = self.expr(e.args[0], local)
                 return "(if %s < 0 then -%s else %s)" % (x, x, x)
@@ -93,6 +131,8 @@ class Tr:
                 raise Unsupported("power")
             r = self.expr(e.right, local)
             op = {ast.Add: "+", ast.Sub: "-", ast.Mult: "*", ast.Div: "/"}.get(type(e.op))
+            if op == "/" and self.ty == "Int":
+                raise Unsupported("bare true division in integer mode")
             if op is None:
                 raise Unsupported("operator %s" % type(e.op).__name__)
             return "(%s %s %s)" % (l, op, r)
@@ -104,6 +144,9 @@ class Tr:
             return "(" + op.join(self.cond(v, local) for v in e.values) + ")"
         if isinstance(e, ast.UnaryOp) and isinstance(e.op, ast.Not):
             return "(¬ %s)" % self.cond(e.operand, local)
+        if isinstance(e, ast.Compare) and len(e.ops) == 1 and isinstance(e.ops[0], (ast.Is, ast.IsNot)) and isinstance(e.left, ast.Name) \
+                and e.left.id in self.none_args and isinstance(e.comparators[0], ast.Constant) and e.comparators[0].value is None:
+            return "True" if isinstance(e.ops[0], ast.Is) else "False"
         if isinstance(e, ast.Compare):
             parts = []
             left = e.left
@@ -116,12 +159,23 @@ class Tr:
             return "(" + " ∧ ".join(parts) + ")"
         raise Unsupported("condition %s" % type(e).__name__)
 
+    def finish(self, local, pad):
+        missing = [o for o in self.outputs if o not in local]
+        if missing:
+            raise Unsupported("prefix ends before %s is assigned" % ",".join(missing))
+        return pad + ".ok (" + ", ".join(self.outputs) + ")"
+
     def block(self, stmts, local, ind):
         """returns lean text for a statement list; every path ends in a value"""
         pad = "  " * ind
         if not stmts:
-            return pad + ".ok 0"
+            return self.finish(local, pad) if self.outputs else pad + ".ok 0"
         s, rest = stmts[0], stmts[1:]
+        if self.outputs and isinstance(s, (ast.For, ast.While, ast.Return)):
+            return self.finish(local, pad)          # end of the straight-line prefix
+        if self.outputs and isinstance(s, ast.Expr) and isinstance(s.value, ast.Call) and isinstance(s.value.func, ast.Attribute) \
+                and isinstance(s.value.func.value, ast.Name) and s.value.func.value.id == "self":
+            return self.block(rest, local, ind)     # a call of another method (its own contract is tied separately)
         if isinstance(s, ast.Expr):
             v = s.value
             if isinstance(v, ast.Constant) and isinstance(v.value, str):
@@ -136,7 +190,18 @@ class Tr:
             return self.block(rest, local, ind)
         if isinstance(s, ast.Assign) and len(s.targets) == 1 and isinstance(s.targets[0], ast.Name):
             nm = s.targets[0].id
-            return pad + "let %s : Rat := %s\n" % (nm, self.expr(s.value, local)) + self.block(rest, local | {nm}, ind)
+            try:
+                rhs = self.expr(s.value, local)
+            except Unsupported:
+                if self.outputs:
+                    return self.finish(local, pad)
+                if self.opaque:
+                    self.param(nm)          # whatever this computes is an input of the translated fragment
+                    return self.block(rest, local - {nm}, ind)
+                raise
+            return pad + "let %s : %s := %s\n" % (nm, self.ty, rhs) + self.block(rest, local | {nm}, ind)
+        if self.opaque and isinstance(s, ast.AugAssign) and isinstance(s.op, ast.Add) and isinstance(s.target, ast.Name) and not rest:
+            return pad + ".ok %s" % self.expr(s.value, local)      # the increment of the accumulator is the fragment's value
         if isinstance(s, ast.Return):
             if s.value is None:
                 return pad + ".ok 0"
@@ -145,6 +210,8 @@ class Tr:
             return pad + ".error ()"
         if isinstance(s, ast.If):
             c = self.cond(s.test, local)
+            if c in ("True", "False"):      # statically decided (specialised argument)
+                return self.block((s.body if c == "True" else s.orelse) + rest, local, ind)
             # code after the if is reached by every branch that falls through
             t = self.block(s.body + rest, local, ind + 1)
             f = self.block(s.orelse + rest, local, ind + 1)
@@ -164,18 +231,32 @@ def find_func(tree, cls, name):
 
 def main():
     defs, unavailable, info = [], [], {}
-    for path, cls, fn, lean_name, module in TARGETS:
+    for path, cls, fn, lean_name, module, *rest_t in TARGETS:
         try:
             src = open(os.path.join(REPO, path), newline=None).read()
             f = find_func(ast.parse(src), cls, fn)
             if f is None:
                 raise Unsupported("function not found")
             args = [a.arg for a in f.args.args if a.arg != "self"]
-            tr = Tr(args)
-            body = tr.block(f.body, set(), 1)
-            params = " ".join("(%s : Rat)" % p for p in tr.params)
-            defs.append("/-- translated from %s:%s.%s (line %d) -/\ndef %s %s : Except Unit Rat :=\n%s\n" % (
-                path, cls, fn, f.lineno, lean_name, params, body))
+            opt = rest_t[0] if rest_t else ()
+            stmts = f.body
+            if isinstance(opt, dict) and opt.get("loop_body"):
+                loops = [x for x in f.body if isinstance(x, ast.For)]
+                if len(loops) != 1:
+                    raise Unsupported("expected exactly one top-level for loop")
+                stmts = loops[0].body
+                tr = Tr([], (), "Rat", None, opaque=True)
+                rty = "Rat"
+            elif isinstance(opt, dict):
+                tr = Tr(args, (), opt["ty"], opt["outputs"])
+                rty = " × ".join([opt["ty"]] * len(opt["outputs"]))
+            else:
+                tr = Tr(args, opt)
+                rty = "Rat"
+            body = tr.block(stmts, set(), 1)
+            params = " ".join("(%s : %s)" % (p, tr.ty) for p in tr.params)
+            defs.append("/-- translated from %s:%s.%s (line %d) -/\ndef %s %s : Except Unit (%s) :=\n%s\n" % (
+                path, cls, fn, f.lineno, lean_name, params, rty, body))
             info[lean_name] = tr.params
         except Unsupported as e:
             unavailable.append("%s: %s (%s)" % (module, lean_name, e))
